@@ -95,12 +95,68 @@ let run_ms (a : string list) : string =
     let r = Buffer.contents out in
     String.sub r 1 (String.length r - 1)
 
+
+(* ---- replace protocol: CR f:<cur>:<old> s:<ver>:<c1,c2|->:<tail> ... p:<o,e,k<j>,..|-> / s:... p:... *)
+let file_str (f : file option) : string =
+  match f with None -> "-" | Some x -> Printf.sprintf "%d.%d.%d" (int_of_n x.f_ver) (int_of_n x.f_bytes) (int_of_n x.f_total)
+let fs_str (fs : fsys) : string = Printf.sprintf "cur:%s old:%s" (file_str fs.cur) (file_str fs.old)
+let parse_file (t : string) : file option =
+  if t = "-" then None else
+    match String.split_on_char '.' t with
+    | [v; b; tt] -> Some { f_ver = n_of_int (int_of_string v); f_bytes = n_of_int (int_of_string b); f_total = n_of_int (int_of_string tt) }
+    | _ -> None
+let parse_outcome (t : string) : outcome =
+  if t = "o" then OOk else if t = "e" then OErr
+  else OKill (n_of_int (int_of_string (String.sub t 1 (String.length t - 1))))
+let sysop_str (o : sysop) : string =
+  match o with SAccess -> "A" | SRename -> "R" | SOpen -> "O" | SClose -> "C" | SWrite k -> "W" ^ string_of_int (int_of_n k)
+let result_str (r : result) : string = match r with Done true -> "ok" | Done false -> "err" | Dead -> "dead"
+let rec split_on (sep : string) (l : string list) : string list list =
+  match l with
+  | [] -> [[]]
+  | x :: r -> let rest = split_on sep r in
+    if x = sep then [] :: rest else (match rest with h :: t -> (x :: h) :: t | [] -> [[x]])
+let run_cr (a : string list) : string =
+  match a with
+  | [] -> "?"
+  | f0 :: rest ->
+    let fs0 = (match String.split_on_char ':' f0 with
+        | [_; c; o] -> { cur = parse_file c; old = parse_file o }
+        | _ -> empty_fs) in
+    let sessions = List.map (fun toks ->
+        let saves = List.filter_map (fun t ->
+            if String.length t > 2 && String.sub t 0 2 = "s:" then
+              (match String.split_on_char ':' t with
+               | [_; v; ch; tl] ->
+                 let chunks = if ch = "-" then [] else List.map (fun c -> n_of_int (int_of_string c)) (String.split_on_char ',' ch) in
+                 Some { s_ver = n_of_int (int_of_string v); s_chunks = chunks; s_tail = n_of_int (int_of_string tl) }
+               | _ -> None)
+            else None) toks in
+        let plan = List.concat (List.filter_map (fun t ->
+            if String.length t >= 2 && String.sub t 0 2 = "p:" then
+              let b = String.sub t 2 (String.length t - 2) in
+              Some (if b = "-" || b = "" then [] else List.map parse_outcome (String.split_on_char ',' b))
+            else None) toks) in
+        (saves, plan)) (split_on "/" rest) in
+    (* run the sessions one by one to print the directory after each *)
+    let fs = ref fs0 in
+    let outs = List.map (fun (saves, plan) ->
+        let (m, rs) = session (start !fs plan) saves in
+        fs := m.m_fs;
+        Printf.sprintf "results=%s trace=%s %s safe=%b reg=%s"
+          (String.concat "," (List.map result_str rs))
+          (String.concat "," (List.map sysop_str m.m_trace))
+          (fs_str m.m_fs) (safe m.m_fs)
+          (match m.m_reg with NotOpen -> "closed" | Open true -> "open-bad" | Open false -> "open")) sessions in
+    String.concat " / " outs
+
 let () =
   try
     while true do
       let line = input_line stdin in
       match words line with
       | "MS" :: a -> print_endline (run_ms a)
+      | "CR" :: a -> print_endline (run_cr a)
       | [] -> ()
       | _ -> print_endline "?"
     done
